@@ -28,7 +28,7 @@ class Box(object):
 
 
 @contextlib.contextmanager
-def open_box(kind, prefix='', fake=None, hostile_dir=False):
+def open_box(kind, prefix='', fake=None, hostile_dir=False, s3_kwargs=None):
     if kind == 'memory':
         from playback.tape_cassettes.in_memory.in_memory_tape_cassette import InMemoryTapeCassette
         c = InMemoryTapeCassette()
@@ -55,7 +55,7 @@ def open_box(kind, prefix='', fake=None, hostile_dir=False):
     elif kind == 's3':
         fk = fake or FakeS3()
         with fk.installed():
-            c = fk.cassette('writer', key_prefix=prefix, read_only=False)
+            c = fk.cassette('writer', key_prefix=prefix, read_only=False, **(s3_kwargs or {}))
             yield Box(kind, c, lambda: fk.cassette('reader', key_prefix=prefix, read_only=True),
                       lambda: fk.snapshot(), lambda: None, fake=fk)
     else:
